@@ -116,3 +116,10 @@ claim("C05", "exploration", "exhaustive enumeration of a finite transformation f
       "order-preserving relabelings, PDB instead of mmCIF) applied to every corpus structure and to lattice structures with interactions leaves base pairs, "
       "stackings, BPh, BR, BPSEQ, dot-bracket and extended dot-bracket unchanged up to the renaming; structures with a decision margin below 1e-6 are undecided.",
       "Format comparisons use harness-emitted texts from one abstract atom list; rigid+format pairs use decimal-exact motions on the coordinate strings.", "DESIGN.md 3/C05, 5.1")
+
+claim("C06", "exploration", "exhaustive enumeration of all entry sequences up to length 2/3 over a finite entry alphabet on three host structures on the real mapping code, against an independent oracle",
+      "For three hosts (two chains; gap with '?' placeholders; non-nucleotide group), with and without gap detection, every sequence of up to 2 (quick) / 3 "
+      "(thorough, stated restriction) entries over {20 ordered residue pairs incl. an absent residue} x {3-4 LW classes} x {no/table Saenger}: BPSEQ numbering and "
+      "letters, symmetric matching taken from canonical input pairs with conflict-free pairs kept, per-strand dot-bracket, balanced full-length extended rows "
+      "encoding every distinct input pair exactly once, all_dot_brackets members, and the adapter path returning the same texts.",
+      "Nucleotide classification and one-letter names are taken from the structure; supplied Saenger values are table-consistent.", "DESIGN.md 3/C06")
